@@ -160,6 +160,34 @@ def findSafetyFrom (acc : Option α) : List (Level α) → Vec3 α → Option α
 def findSafety (levels : List (Level α)) (pos : Vec3 α) : Option α :=
   findSafetyFrom none levels pos
 
+/-! ### per-level state: `find_safety` reads only the stored per-level positions -/
+
+/-- `t.rotate_down(dir)` -/
+def LevelXf.rotDown : LevelXf α → Vec3 α → Vec3 α
+  | .noTransformation, d => d
+  | .translation _, d => d
+  | .transformation t, d => t.rotDown d
+
+/-- local direction of every level: the rotate-down chain written by `set_dir` (and by
+    `operator=(Initializer)`) -/
+def levelDirections : List (Level α) → Vec3 α → List (Vec3 α)
+  | [], _ => []
+  | l :: ls, d => let d' := l.xf.rotDown d; d' :: levelDirections ls d'
+
+/-- `find_safety()` as the code evaluates it: min over levels of `t.safety(lsa.pos(), lsa.vol())`
+    on the STORED per-level positions -/
+def findSafetyAtFrom (acc : Option α) : List (Level α) → List (Vec3 α) → Option α
+  | l :: ls, p :: ps => findSafetyAtFrom (fminO acc (l.geom.safety p)) ls ps
+  | _, _ => acc
+
+def findSafetyAt (levels : List (Level α)) (ps : List (Vec3 α)) : Option α :=
+  findSafetyAtFrom none levels ps
+
+/-- `move_internal(dist)`: `axpy(dist, lsa.dir(), &lsa.pos())` at every level -/
+def moveInternal (dist : α) : List (Vec3 α) → List (Vec3 α) → List (Vec3 α)
+  | d :: ds, p :: ps => Vec3.axpy dist d p :: moveInternal dist ds ps
+  | _, _ => []
+
 /-- `OrangeTrackView::find_safety(real_type max_step)` — the overload Urban MSC calls.  As
     written: `return this->find_safety();` ("we currently support only simple safety distances,
     we can't eliminate anything by checking only nearby surfaces"): the argument is ignored, every
